@@ -74,72 +74,86 @@ fn c09_subframe_selection_never_exceeds_verbatim() {
 }
 
 static mut SUB_STUB_CALLS: usize = 0;
-static mut SUB_STUB_BITS: [usize; 4] = [0; 4];
-fn encode_subframe_stub(_config: &config::SubFrameCoding, _samples: &[i32], bits_per_sample: u8) -> SubFrame {
+static mut SUB_STUB_BPS: [u8; 4] = [8; 4];
+static mut SUB_STUB_STATIC: [Option<SubFrame>; 4] = [None, None, None, None];
+/// Stand-in for `encode_subframe`: constant subframes whose size (8 + bits) is arbitrary; call
+/// order: left, right (independent frame), then mid, side.
+fn encode_subframe_stub(_config: &config::SubFrameCoding, samples: &[i32], _bits_per_sample: u8) -> SubFrame {
     unsafe {
         let k = SUB_STUB_CALLS;
         SUB_STUB_CALLS += 1;
-        let q = if k < 4 { SUB_STUB_BITS[k] } else { 0 };
-        gen::subframe_with_bits(q, bits_per_sample)
+        Constant::from_parts(samples.len(), k as i32, SUB_STUB_BPS[k % 4]).into()
     }
+}
+/// Stand-in for `Frame::subframe`: reads the same subframes from a static table instead of the
+/// frame's `Vec<SubFrame>` (a SubFrame read back from a Vec has a symbolic discriminant under
+/// CBMC and every count_bits/write variant gets explored: no answer in 40 min).  The frame is
+/// identified by its channel assignment (independent: entries 0/1, mid-side: entries 2/3).
+fn frame_subframe_stub(frame: &Frame, ch: usize) -> Option<&SubFrame> {
+    let base = if matches!(*frame.header().channel_assignment(), ChannelAssignment::Independent(_)) { 0 } else { 2 };
+    if ch >= 2 {
+        return None;
+    }
+    unsafe { SUB_STUB_STATIC[base + ch].as_ref() }
 }
 
 //@ prop: C09
 //@ tier: thorough
-//@ drives: coding::encode_frame, coding::encode_frame_impl, coding::try_stereo_coding, coding::recombine_stereo_frame, ChannelAssignment::select_channels, FrameBuf::fill_stereo_with_iter
-//@ bound: 2-channel frame of 32 samples (zeros), the four subframe sizes (left, right, mid, side) arbitrary in 18..2^40 bits, every combination of the three stereo switches
-//@ asserts: the emitted pair of subframes is never larger than left+right coded independently, equals the minimum over the enabled combinations, and the header's channel assignment names the pair actually emitted
-//@ stubs: coding::encode_subframe -> subframes of arbitrary size (call order: left, right, mid, side); alloc::fmt::format -> empty string
+//@ drives: coding::encode_frame, coding::encode_frame_impl, coding::try_stereo_coding (the bit-count comparison among independent / left-side / right-side / mid-side), coding::recombine_stereo_frame, ChannelAssignment::select_channels, FrameBuf::fill_stereo_with_iter
+//@ bound: 2-channel frame of 32 samples (zeros); the four subframe sizes (left, right, mid, side) arbitrary in 16..=263 bits; every combination of the three stereo switches
+//@ asserts: the chosen channel assignment has the minimum total size among the enabled combinations and never exceeds left+right coded independently; the emitted pair of subframes is the pair the assignment names (identified by tags planted in the stand-in subframes)
+//@ stubs: coding::encode_subframe -> constant subframes of arbitrary size; Frame::subframe -> the same subframes read from a static table (see frame_subframe_stub); alloc::fmt::format -> empty string
+//@ note: measured: no answer in 15 min - `combinations.iter().flatten()` over options with symbolic discriminants is unwound to the bound on every call; reported undecided when it times out
+//@ oracle: c09_oracle_stereo_anticorrelated
 #[kani::proof]
 #[kani::unwind(40)]
 #[kani::stub(alloc::fmt::format, fmt_stub)]
 #[kani::stub(super::encode_subframe, encode_subframe_stub)]
+#[kani::stub(crate::component::datatype::Frame::subframe, frame_subframe_stub)]
 fn c09_stereo_selection_never_exceeds_independent() {
     let mut cfg = config::Encoder::default();
     cfg.stereo_coding.use_leftside = kani::any();
     cfg.stereo_coding.use_rightside = kani::any();
     cfg.stereo_coding.use_midside = kani::any();
-    let bits: [usize; 4] = kani::any();
-    let mut i = 0;
-    while i < 4 {
-        kani::assume(bits[i] < (1usize << 40));
-        i += 1;
-    }
+    let bps: [u8; 4] = kani::any();
     unsafe {
         SUB_STUB_CALLS = 0;
-        SUB_STUB_BITS = bits;
-    }
-    let fb = crate::source::verif_kani::new_framebuf(2, 32);
-    let mut fb = fb;
-    fb.fill_interleaved(&[0i32; 64]).ok();
-    let info = match StreamInfo::new(44100, 2, 16) {
-        Ok(i) => i,
-        Err(e) => {
-            std::mem::forget(e);
-            return;
+        SUB_STUB_BPS = bps;
+        let mut k = 0;
+        while k < 4 {
+            SUB_STUB_STATIC[k] = Some(Constant::from_parts(32, k as i32, bps[k]).into());
+            k += 1;
         }
-    };
+    }
+    let mut fb = crate::source::verif_kani::new_framebuf(2, 32);
+    let r = fb.fill_interleaved(&[0i32; 64]);
+    assert!(r.is_ok());
+    std::mem::forget(r);
+    let info = gen::stream_info_of(44100, 2, 16);
     let frame = encode_frame(&cfg, &fb, 0, &info);
     assert!(unsafe { SUB_STUB_CALLS } == 4);
-    let (l, r, m, s) = (bits[0] + 18, bits[1] + 18, bits[2] + 18, bits[3] + 18);
-    let got0 = frame.subframe(0).unwrap().count_bits();
-    let got1 = frame.subframe(1).unwrap().count_bits();
-    assert!(frame.subframe_count() == 2);
-    assert!(got0 + got1 <= l + r);
+    let (l, r, m, s) = (8 + bps[0] as usize, 8 + bps[1] as usize, 8 + bps[2] as usize, 8 + bps[3] as usize);
     let mut best = l + r;
     if cfg.stereo_coding.use_leftside && l + s < best { best = l + s; }
     if cfg.stereo_coding.use_rightside && r + s < best { best = r + s; }
     if cfg.stereo_coding.use_midside && m + s < best { best = m + s; }
-    assert!(got0 + got1 == best);
-    match *frame.header().channel_assignment() {
-        ChannelAssignment::Independent(n) => assert!(n == 2 && got0 == l && got1 == r),
-        ChannelAssignment::LeftSide => assert!(got0 == l && got1 == s && cfg.stereo_coding.use_leftside),
-        ChannelAssignment::RightSide => assert!(got0 == s && got1 == r && cfg.stereo_coding.use_rightside),
-        ChannelAssignment::MidSide => assert!(got0 == m && got1 == s && cfg.stereo_coding.use_midside),
-    }
-    kani::cover!(matches!(*frame.header().channel_assignment(), ChannelAssignment::RightSide));
-    kani::cover!(matches!(*frame.header().channel_assignment(), ChannelAssignment::Independent(_)));
-    std::mem::forget(frame);
+    let (chosen, want_tags) = match *frame.header().channel_assignment() {
+        ChannelAssignment::Independent(n) => { assert!(n == 2); (l + r, (0, 1)) }
+        ChannelAssignment::LeftSide => { assert!(cfg.stereo_coding.use_leftside); (l + s, (0, 3)) }
+        ChannelAssignment::RightSide => { assert!(cfg.stereo_coding.use_rightside); (s + r, (3, 1)) }
+        ChannelAssignment::MidSide => { assert!(cfg.stereo_coding.use_midside); (m + s, (2, 3)) }
+    };
+    assert!(chosen == best);
+    assert!(chosen <= l + r);
+    // the pair actually emitted (dc_offset carries the call index planted by the stub)
+    let assignment_is_rs = matches!(*frame.header().channel_assignment(), ChannelAssignment::RightSide);
+    let (_h, subs) = frame.into_parts();
+    assert!(subs.len() == 2);
+    let tag = |sf: &SubFrame| -> i32 { if let SubFrame::Constant(c) = sf { c.dc_offset() } else { -1 } };
+    assert!(tag(&subs[0]) == want_tags.0 && tag(&subs[1]) == want_tags.1);
+    kani::cover!(assignment_is_rs);
+    kani::cover!(chosen == l + r && best < m + s);
+    std::mem::forget(subs);
     std::mem::forget(fb);
 }
 
